@@ -1,9 +1,14 @@
 """The edits of parse_uc (biom/parse.py) tried against the C17 uc-importer translator tie (docs/C17.md, "Translator
 tie"): each is applied to a scratch copy of the repository (cp -r /repo /tmp/c17gen-repo first) and run through the
 whole `BIOM_REPO=/tmp/c17gen-repo VERIF_OUT=/tmp/c17gen-out ./check C17`; rows go to /tmp/c17gen/rows.json.
-Afterwards run tools/regen.sh and ./check C17 against /repo again."""
+Afterwards run tools/regen.sh and ./check C17 against /repo again.
+C17GEN_VERIF (default /verif) is the framework tree the check is run in: a private copy (tar without .git to
+/tmp/c17gen-verif) keeps other people's tools/regen.sh runs from rewriting coq/Gen/UcGen.v between the regeneration and
+the build of an edit."""
 import glob, os, re, shutil, subprocess, sys, json
 REPO = '/tmp/c17gen-repo'
+V = os.environ.get('C17GEN_VERIF', '/verif')
+REF = subprocess.run(['git', 'show', 'HEAD:coq/Gen/UcGen.v'], cwd='/verif', capture_output=True, text=True).stdout
 F = '/biom/parse.py'
 EDITS = [
  ('types-HS', 'semantic', 'library seeds (L) are no longer read', "line_types = set('HSL')", "line_types = set('HS')"),
@@ -38,16 +43,16 @@ for name, group, what, old, new in EDITS:
     if names and name not in names:
         continue
     shutil.copy('/repo' + F, REPO + F)
-    subprocess.run(['tools/regen_uc.sh'], cwd='/verif', capture_output=True)    # a refusal leaves the /repo text
+    subprocess.run(['tools/regen_uc.sh'], cwd=V, capture_output=True)    # a refusal leaves the /repo text
     s = open(REPO + F).read()
     assert s.count(old) == 1, name
     open(REPO + F, 'w').write(s.replace(old, new))
     env = dict(os.environ, BIOM_REPO=REPO, VERIF_OUT='/tmp/c17gen-out')
     shutil.rmtree('/tmp/c17gen-out', ignore_errors=True)
-    p = subprocess.run(['./check', 'C17'], cwd='/verif', env=env, capture_output=True, text=True)
+    p = subprocess.run(['./check', 'C17'], cwd=V, env=env, capture_output=True, text=True)
     out = p.stdout + p.stderr
     open('/tmp/c17gen/%s.log' % name, 'w').write(out)
-    diff = subprocess.run(['git', 'diff', '--quiet', '--', 'coq/Gen/UcGen.v'], cwd='/verif').returncode
+    diff = open(V + '/coq/Gen/UcGen.v').read() != REF
     broke = ''
     rep = {}
     for f in glob.glob('/tmp/c17gen-out/replays/C17-*.json'):
@@ -60,11 +65,11 @@ for name, group, what, old, new in EDITS:
     if p.returncode and not refused:
         q = subprocess.run('ulimit -v 8000000; timeout 300 coqc -Q . BiomV Gen/UcGen.v && timeout 300 coqc -Q . BiomV '
                            'Proofs/GenBridgeUcProofs.v && timeout 300 coqc -Q . BiomV Props/C17.v', shell=True,
-                           cwd='/verif/coq', capture_output=True, text=True)
+                           cwd=V + '/coq', capture_output=True, text=True)
         out2 = q.stdout + q.stderr
     m = re.search(r'File "\./(Gen/UcGen\.v|Proofs/GenBridgeUcProofs\.v|Props/C17\.v)", line (\d+)', out2)
     if m:
-        lines = open('/verif/coq/' + m.group(1)).read().split('\n')[:int(m.group(2))]
+        lines = open(V + '/coq/' + m.group(1)).read().split('\n')[:int(m.group(2))]
         for l in reversed(lines):
             mm = re.match(r'\s*(Lemma|Theorem|Example|Definition)\s+(\w+)', l)
             if mm:
@@ -76,6 +81,6 @@ for name, group, what, old, new in EDITS:
                  broke or (refused[0][:160] if refused else 'all proofs check'), ' | '.join(verdict)[:300], p.returncode, fail))
     print(rows[-1], flush=True)
 shutil.copy('/repo' + F, REPO + F)
-subprocess.run(['tools/regen_uc.sh'], cwd='/verif', capture_output=True)
+subprocess.run(['tools/regen_uc.sh'], cwd=V, capture_output=True)
 old = [r for r in (json.load(open('/tmp/c17gen/rows.json')) if os.path.exists('/tmp/c17gen/rows.json') else []) if r[0] not in [x[0] for x in rows]]
 json.dump(old + [list(r) for r in rows], open('/tmp/c17gen/rows.json', 'w'), indent=1)
